@@ -41,10 +41,13 @@ class JavaExternalType(BaseModel):
 
 def apply_type_annotation(type_input: str, annotation: str) -> str:
     if annotation:
-        split_output = type_input.rsplit('.', maxsplit=1)
+        # the annotation belongs in front of the simple name of the annotated type itself,
+        # not in front of a type argument (`java.util.@A EnumSet<pkg.F>`, not `java.util.EnumSet<pkg.@A F>`)
+        head, bracket, arguments = type_input.partition('<')
+        split_output = head.rsplit('.', maxsplit=1)
         if len(split_output) == 2:
             package, typename = split_output
-            return f"{package}.{annotation} {typename}"
+            return f"{package}.{annotation} {typename}{bracket}{arguments}"
         else:
             return f"{annotation} {type_input}"
     else:
